@@ -18,7 +18,13 @@ RULE = ('operation histories on 1-3 IOQueues and 0-2 IOStacks sharing one Memory
         'blocks moved between buffers of different pools, consumed on the destination, then further writes aimed at multiples '
         'of both block sizes and reads on the destination; model faithful to the code: bytes conserved, pool counters per '
         'known finding C15-crosspool); buffers of 1023/1024/1025/3000 blocks on 1- and 4-byte pools (class big*/Xbig*: AsIOVec '
-        'beyond IOV_MAX entries, Read/Pop/Peek/move, PerformWrite with a writev that accepts all it is offered); every observable compared after every op; non-trivial = at '
+        'beyond IOV_MAX entries, Read/Pop/Peek/move, PerformWrite with a writev that accepts all it is offered); 32-bit boundary '
+        'magnitudes (UINT_MAX, UINT_MAX-1, 2^32-size, 2^32-cursor and neighbours, 2^31, 2^31-1) for every length argument of '
+        'Read/Read(string)/Peek/Pop, MemoryBuffer reads (also after the cursor moved), PerformWrite and the sender limit - executed '
+        'by the model through natlen (c15_len_any*); threaded cases (class T*: 4 threads x 40-60 repetitions, each repetition on a '
+        'freshly default-constructed IOQueue + IOStack with private 1024-byte-block pools, every run must give the model trace; '
+        'pool identity of all live default-constructed buffers must be distinct; detection of cross-thread interference itself '
+        'is probabilistic, the identity check is deterministic); every observable compared after every op; non-trivial = at '
         'least one byte written and one byte read / peeked / accepted by the descriptor; distinct = distinct model output line')
 ASSUMPTIONS = ['operator new does not fail',
                'several pools: c15_multi_refines / c15_multi_accounting / c15_multi_buffers prove conservation, Size, iovec and the exact '
@@ -32,6 +38,8 @@ ASSUMPTIONS = ['operator new does not fail',
                '(Size(), hence LimitReached(), and m_blocks_allocated) are treated explicitly: c15_size32 states Size() modulo 2^32 '
                'with the guard "buffer holds < 2^32 bytes", c15_size32_wraps shows the wrap, and c15_sender_conserves is proved '
                'with the wrapping Size(); more than 2^32 allocated blocks are not considered',
+               'threads: the classes are documented as not thread safe; the check only requires that buffers which share NOTHING '
+               'explicit (default-constructed, private pools) do not interfere across threads',
                'pool block size >= 1 (with block size 0 Write(non-empty) never returns; not exercised)',
                'NonBlockingSender: the application never touches the private m_output_buffer; the descriptor stays valid; '
                'the kernel accepts at most the bytes it was offered (writev/sendmsg contract)']
@@ -70,7 +78,7 @@ DESIGN_REF = 'DESIGN.md §4 C15'
 
 # property-level observables are the o<k> keys (returned bytes, Size, Empty, concatenated iovec,
 # allocated == free + held, no empty block held); i<k> keys are block layout / pool counters.
-SPEC_KEYS = set('o%d' % i for i in range(0, 400))
+SPEC_KEYS = set('o%d' % i for i in range(0, 400)) | {'threads', 'distinct'}
 INTERNAL_KEYS = []
 PROC_TIMEOUT = 900
 
@@ -104,6 +112,10 @@ class Gen(object):
 
     def rlen(self, size):
         bs = self.bs
+        if self.rng.random() < 0.06:
+            # 32-bit boundary magnitudes: the length is an `unsigned int` everywhere
+            return self.rng.choice([4294967295, 4294967294, 4294967296 - max(1, size), 4294967295 - size,
+                                    2147483648, 2147483647, 4294967295 - bs])
         return max(0, self.rng.choice([0, 1, bs - 1, bs, bs + 1, size - 1, size, size, size + 1, size - bs,
                                        size // 2, 2 * bs, self.rng.randrange(0, size + 2)]))
 
@@ -192,7 +204,7 @@ class XGen(Gen):
         elif kind == 'xw':
             size = self.q[0]
             k = max(0, r.choice([0, 1, 1, bs - 1, bs, bs + 1, 2 * bs, size - 1, size, size, size + 1, size // 2,
-                                 size - bs, 3000, r.randrange(0, size + 2)]))
+                                 size - bs, 3000, 4294967295, 2147483648, r.randrange(0, size + 2)]))
             self.ops.append('xw:%d' % k)
             self.q[0] -= min(k, size)
         elif kind == 'xe':
@@ -206,10 +218,19 @@ class XGen(Gen):
             self.q[i] -= min(w, self.q[i])
         elif kind == 'mb':
             n = r.choice([0, 1, 2, 3, 4, 5, 7, 8, 9, r.randrange(0, 20)])
-            calls = []
+            calls, cur = [], 0
             for _ in range(r.randrange(0, 6)):
                 c = r.choice('rsi')
-                calls.append(c + str(r.choice([1, 2, 4]) if c == 'i' else r.choice([0, 1, 2, n, n + 1, r.randrange(0, n + 2)])))
+                if c == 'i':
+                    ln = r.choice([1, 2, 4])
+                elif r.random() < 0.35:
+                    # oversized 32-bit lengths, also AFTER the cursor has moved (2^32 - cursor and around it)
+                    ln = r.choice([4294967295, 4294967294, 4294967296 - max(cur, 1), 4294967295 - cur, 4294967297 - max(cur, 2),
+                                   2147483648, 4294967295 - n, 4294967296 - max(n, 1)])
+                else:
+                    ln = r.choice([0, 1, 2, n, n + 1, max(0, n - cur), max(0, n - cur) + 1, r.randrange(0, n + 2)])
+                calls.append(c + str(ln))
+                cur = min(n, cur + ln)
             self.ops.append('mb:%s:%s' % (hx(self.data(n)), ','.join(calls)) if calls else 'mb:%s' % hx(self.data(n)))
         else:
             return self.emit(kind)
@@ -227,7 +248,7 @@ def xcases(rng, count):
     for _ in range(count):
         bs = rng.choice([1, 2, 3, 4, 4, 5, 8])
         fam = rng.choice(['sender', 'sender', 'limit', 'drain', 'stream', 'mixed'])
-        mx = rng.choice([0, 1, bs, 2 * bs + 1, 10, 1024]) if fam != 'limit' else rng.choice([1, bs, bs + 1, 2 * bs, 7])
+        mx = rng.choice([0, 1, bs, 2 * bs + 1, 10, 1024, 4294967295, 2147483648]) if fam != 'limit' else rng.choice([1, bs, bs + 1, 2 * bs, 7])
         g = XGen(rng, bs, rng.choice([2, 3]), rng.choice([1, 2]), mx)
         if fam in ('sender', 'limit'):
             # messages built on stacks / queues, sent, written out in scripted pieces
@@ -315,6 +336,23 @@ def ccases(rng, count):
         if not g.ops:
             g.ops.append('qw:0:' + hx(g.data(bsa + bsb)))
         yield 'Ccross-%s %d %d %s %s %s' % (fam, bsa, bsb, qm, sm, ' '.join(g.ops))
+
+
+def tcases(rng, count, threads, reps):
+    """several threads, each running the history `reps` times on its own default-constructed IOQueue / IOStack"""
+    # no 'sd': destroying a default-constructed stack also destroys its private pool (every rep does that at its end)
+    kinds = ['qw', 'qw', 'sw', 'sw', 'qr', 'qs', 'qk', 'qp', 'sr', 'ss', 'sp', 'qc', 'sm', 'qw', 'sw']
+    for _ in range(count):
+        g = Gen(rng, 1024, 1, 1)
+        g.wlen = lambda: rng.choice([1, 3, 100, 1023, 1024, 1025, 2048, 2049, 2500, rng.randrange(1, 3000)])
+        n = rng.choice([4, 8, 14])
+        tries = 0
+        while len(g.ops) < n and tries < 4 * n:
+            tries += 1
+            g.emit(rng.choice(kinds))
+        if not any(t[:2] in ('qw', 'sw') for t in g.ops):
+            g.ops.insert(0, 'qw:0:' + hx(g.data(1500)))
+        yield 'Tthreads %d %d %s' % (threads, reps, ' '.join(g.ops))
 
 
 def bigcases():
@@ -412,6 +450,8 @@ def gen_cases(rng, tier):
         yield c
     for c in bigcases():
         yield c
+    for c in tcases(rng, 24 if quick else 150, 4, 40 if quick else 60):
+        yield c
     for c in ccases(rng, 2500 if quick else 60000):
         yield c
     for c in xcases(rng, 4000 if quick else 100000):
@@ -433,7 +473,7 @@ def gen_cases(rng, tier):
 
 def nontrivial(payload, md):
     ext = payload[0] in 'XC'
-    toks = payload.split()[5 if ext else 4:]
+    toks = payload.split()[3 if payload[0] == 'T' else 5 if ext else 4:]
     wrote = any(t[:2] in ('qw', 'sw') and not t.endswith(':-') or t[:2] in ('qb', 'sb') for t in toks)
     if ext and not any(t[:2] == 'mb' for t in toks):
         # sender / stream histories: bytes written AND bytes that came out (descriptor, read or stream)
